@@ -397,9 +397,53 @@ def run(ctx):
         if wire.check_pair(ctx, R_pair, m2, r, w, owner, fields=struct_fields(m2, owner)):
             armed += 1
 
+    # literal element sizes in section layout: `offset += list.len() * K` — K is the width the element's writer emits
+    widths = Widths(m2, by_owner)
+    R_lit = ctx.rule("C13.layout-advance-equals-element-width", "every `offset += self.LIST.len() * K` in a writer advances by the byte width of LIST's element writer (primitive size or computed record width)", floor=4)
+    PRIM = {"u8": 1, "i8": 1, "u16": 2, "i16": 2, "u32": 4, "i32": 4, "f32": 4, "u64": 8, "i64": 8, "f64": 8}
+    for f in m2.fn_list:
+        if f.kind == "Closure" or not f.hir or "::tests::" in f.path or not re.search(r"::write(_\w+)?$", norm(f.path)):
+            continue
+        for x in hirq.walk(f.hir["body"]):
+            if x.get("k") != "assignop" or not x["op"].startswith("+"):
+                continue
+            r_ = hirq.strip(x["r"])
+            while r_.get("k") == "cast" or (r_.get("k") == "block" and not r_.get("stmts") and r_.get("e")):
+                r_ = hirq.strip(r_["e"])
+            if not (r_.get("k") == "bin" and r_["op"] == "*"):
+                continue
+            a_, b_ = hirq.strip(r_["l"]), hirq.strip(r_["r"])
+            lenx, kx = (a_, b_) if a_.get("k") == "mcall" and a_["m"] == "len" else ((b_, a_) if b_.get("k") == "mcall" and b_["m"] == "len" else (None, None))
+            if lenx is None:
+                continue
+            k_lit = hirq.lit_int(kx)
+            lty = m2.ty(hirq.strip(lenx["recv"]).get("t")) or ""
+            m_ = re.search(r"Vec<([\w:]+)", lty)
+            if not m_:
+                continue
+            elem = m_.group(1)
+            if k_lit is None:
+                # size_of::<T>() of the element's own primitive type is right by construction
+                if re.search(r"size_of", hirq.render(kx)):
+                    ctx.ok(R_lit, {"fn": norm(f.path), "list": hirq.render(lenx["recv"])[:40], "per_element": hirq.render(kx)[:40]})
+                continue
+            want = PRIM.get(elem)
+            if want is None:
+                toks = widths.writer_tokens(norm(elem))
+                want = widths.width(toks, {}) if toks else None
+            if want is None:
+                ctx.note_unarmed(R_lit, "%s:%s" % (norm(f.path), hirq.render(lenx["recv"])[:30]), "element width of %s not computable" % elem)
+                continue
+            ctx.saw_fn(f)
+            if want == k_lit:
+                ctx.ok(R_lit, {"fn": norm(f.path), "list": hirq.render(lenx["recv"])[:40], "per_element": k_lit, "element": elem.split("::")[-1]})
+            else:
+                ctx.bad(R_lit, "%s|%s|element-size" % (norm(f.path).split("::")[-2] + "::" + norm(f.path).split("::")[-1], hirq.render(lenx["recv"])[-30:]), "%s:%d" % (f.file, x["ln"]),
+                        "`%s` advances %d bytes per element, but %s::write emits %d" % (hirq.render(x)[:70], k_lit, elem.split("::")[-1], want),
+                        "every section laid out after this one gets an offset that is %d bytes per element off: it parses back from the wrong bytes" % abs(want - k_lit))
+
     # record-size constants
     mw = m2.fns.get("wow_m2::model::M2Model::write")
-    widths = Widths(m2, by_owner)
     if mw is None or not mw.hir:
         ctx.bad(R_size, "M2Model::write|missing", "-", "function not found", "anchor gone")
         return
